@@ -114,6 +114,8 @@ let preds : (string * (val0 list -> bool)) list = [
   ("kf_f20_2", (fun l -> kf_f20 [List.hd l])); ("kf_f22_2", (fun l -> kf_f22 [List.hd l]));
   ("c03_pred", c03_pred); ("kf_f14", kf_f14); ("kf_f15", kf_f15); ("kf_f17", kf_f17_with oracles.o_ip_parse);
   ("kf_empty_authority", kf_empty_authority);
+  ("kf_f17_1", (fun l -> kf_f17_with oracles.o_ip_parse (List.tl l)));
+  ("c01_quote_pred", (function [WNat i; WStr s; WStr o] -> c01_quote_pred (nat_of_int (int_of_n i)) s o | _ -> false));
   ("c16_pred", c16_pred); ("c16_reject_pred", c16_reject_pred); ("c16_nfkc_pred", c16_nfkc_pred);
   ("c07_enc_pred", c07_enc_pred oracles);
   ("c07_auto_pred", c07_auto_pred);
